@@ -81,6 +81,7 @@ func c01Configs(all bool) []c01cfg {
 		for m := uint64(0); m <= 4; m++ {
 			vs = append(vs, drive.V(7, m))
 		}
+		vs = append(vs, nil) // Config.Version omitted: the documented default
 	}
 	var out []c01cfg
 	for _, v := range vs {
@@ -231,7 +232,7 @@ func c01Run(c *core.Ctx) {
 			if !c.Next() {
 				continue
 			}
-			for _, v := range []*version.Version{drive.V74, drive.V72, drive.V56} {
+			for _, v := range []*version.Version{drive.V74, drive.V72, drive.V56, nil} {
 				c01One(c, mkCase(src[:cut], v, "truncated special"))
 				c.Stat("truncation_parses", 1)
 			}
